@@ -461,6 +461,9 @@ func (c *Ctx) c02Case(s *SuiteStat, g *Gen, k *saKeys, sender message.Role, sx, 
 	sa := newSA(k)
 	si, sr := installSpies(sa)
 	chk := func(alt []byte, what string, sample bool) {
+		if what == "splice" && bytes.Equal(alt, m2) {
+			return // the "splice" is the second genuine message itself (cut points 0 / 0, or equal headers)
+		}
 		*idx++
 		c.c02Check(s, k, sa, si, sr, recv, m1, alt, what, *idx, nontr, corr, sample)
 	}
